@@ -1,7 +1,7 @@
 SPECIFICATION Spec
 CONSTANTS
   PCs = {0,2,3}
-  Nums = {0,1,3,4}
+  Nums = {0,1,3}
   NumsLast = {0,2}
   MaxFull = 2
   MaxTerms = 3
